@@ -90,8 +90,9 @@ void prop(DP &dp, const ref::Bytes &sched, Ctx &ctx) {
 		t_bidib_track_state st = bidib_get_state();
 		auto cmp = [&](const char *kind, const char *id, const std::string &snap, const std::string &single) {
 			if (snap != single) {
-				bidib_free_track_state(st);
-				ctx.fail(std::string("SNAPSHOT: ") + kind + " " + (id ? id : "(null)") + ": bidib_get_state has [" + snap + "] but the single-entity getter returns [" + single + "]");
+				std::string msg = std::string("SNAPSHOT: ") + kind + " " + (id ? id : "(null)") + ": bidib_get_state has [" + snap + "] but the single-entity getter returns [" + single + "]";
+				bidib_free_track_state(st);          // `id` points into the snapshot: message first
+				ctx.fail(msg);
 			}
 		};
 		for (int k = 0; k < 2; k++) {
